@@ -605,6 +605,10 @@ class Extractor:
             else:
                 self.out.add('impl%s vstd::std_specs::convert::FromSpecImpl<%s> for %s {\n    open spec fn obeys_from_spec() -> bool { false }\n    open spec fn from_spec(v: %s) -> Self { arbitrary() }\n}\n'
                              % (generics, arg, selfty_clean, arg), ('gen', 'from_spec default'))
+        if trait == 'PartialEq' and not targs:
+            # manual PartialEq impls make no claim about vstd's eq_spec (their own contract, if any, is what callers see)
+            self.out.add('impl%s vstd::std_specs::cmp::PartialEqSpecImpl for %s {\n    open spec fn obeys_eq_spec() -> bool { false }\n    open spec fn eq_spec(&self, other: &%s) -> bool { arbitrary() }\n}\n'
+                         % (generics, selfty_clean, selfty_clean), ('gen', 'eq_spec default'))
         if trait == 'TryFrom':
             p = '%s::try_from%s' % (ty_short, suffix)
             fs = None
